@@ -24,7 +24,8 @@ AllRules == {"C01.Accept", "C01.Reject", "C01.Data", "C01.BlankReading",
              "C07.NoPanic", "C07.ParEqual", "C07.Orders", "C07.Schedule",
              "C08.Lossless", "C08.Blocks", "C08.NoOp",
              "C09.Accepted", "C09.SameRecords", "C09.FixedPoint", "C09.Layout", "C09.Exact",
-             "C10.NoPanic", "C10.ErrShape", "C10.Order", "C10.FirstLine", "C10.Term", "C10.Json"}
+             "C10.NoPanic", "C10.ErrShape", "C10.Order", "C10.FirstLine", "C10.Term", "C10.Json", "C10.Multi", "C10.Stdin",
+             "C01.Channels", "C09.Channels", "C08.NoOpFile", "C10.ParEqual", "C20.Stdin"}
 RuleNames == {r \in AllRules : Sel = "ALL" \/ StartsWith(r, Sel)}
 
 EntryTotal(e) == IF e.kind = "dur" THEN e.a ELSE IF e.kind = "range" THEN e.b - e.a ELSE 0
@@ -59,25 +60,37 @@ TabToSpace(t) == IF t = "" THEN "" ELSE (IF Ch(t, 1) = TAB THEN SP ELSE Ch(t, 1)
 IsErrHeader(x) == StartsWith(x.text, "[SYNTAX ERROR] in line ")
 
 (* the terminal report shows, for every error in order: line number and file, the quoted line, the carets *)
-TermOK(o) ==
-    LET tl == SplitLines(o.print_err)
+(* errs: the expected errors in order, each with the file it belongs to *)
+TermOKOn(printErr, errs) ==
+    LET tl == SplitLines(printErr)
         idx == SelectSeq([i \in 1..Len(tl) |-> i], LAMBDA i : IsErrHeader(tl[i]))
-    IN  /\ Len(idx) >= Len(o.errors)
-        /\ \A i \in 1..Len(o.errors) :
-              LET e == o.errors[i]  h == idx[i] IN
-              /\ tl[h].text = "[SYNTAX ERROR] in line " \o NatStr(e.line) \o " of file " \o o.file
+    IN  /\ Len(idx) >= Len(errs)
+        /\ \A i \in 1..Len(errs) :
+              LET e == errs[i].e  h == idx[i] IN
+              /\ tl[h].text = "[SYNTAX ERROR] in line " \o NatStr(e.line)
+                              \o (IF errs[i].f = "" THEN "" ELSE " of file " \o errs[i].f)
               /\ h + 2 <= Len(tl)
               /\ tl[h + 1].text = "    " \o TabToSpace(e.text)
               /\ tl[h + 2].text = "    " \o RepeatN(SP, e.pos) \o RepeatN("^", e.len)
+JsonErrsOn(jerrs, errs) ==
+    /\ Len(jerrs) = Len(errs)
+    /\ \A i \in 1..Len(errs) :
+          LET e == errs[i].e  j == jerrs[i] IN
+          j.line = e.line /\ j.column = e.pos + 1 /\ j.length = e.len /\ j.title = e.title /\ j.file = errs[i].f
+OneFile(o) == [i \in 1..Len(o.errors) |-> [e |-> o.errors[i], f |-> o.file]]
+(* the same text given twice (as two files, the second one first in alphabetical order): the errors *)
+(* of the first argument, then those of the second, each list in line order                         *)
+TwoFiles(o) == LET n == Len(o.errors) IN
+               [i \in 1..(2 * n) |-> IF i <= n THEN [e |-> o.errors[i], f |-> o.file]
+                                      ELSE [e |-> o.errors[i - n], f |-> o.file2]]
+TermOK(o) == TermOKOn(o.print_err, OneFile(o))
+HasChannels(o) == "stdin_print" \in DOMAIN o
 
 JsonErrOK(o) ==
     /\ o.json_wellformed /\ o.json_pretty_wellformed
     /\ o.json = o.json_pretty
     /\ o.json_records_null /\ ~o.json_errors_null
-    /\ Len(o.json.errors) = Len(o.errors)
-    /\ \A i \in 1..Len(o.errors) :
-          LET e == o.errors[i]  j == o.json.errors[i] IN
-          j.line = e.line /\ j.column = e.pos + 1 /\ j.length = e.len /\ j.title = e.title /\ j.file = o.file
+    /\ JsonErrsOn(o.json.errors, OneFile(o))
 
 (* canonical layout of printed output: LF only, headlines unindented, entries 4 and continuation  *)
 (* lines 8 spaces, exactly one empty line between records, one leading and one trailing empty line *)
@@ -133,6 +146,11 @@ Holds(r, ev, P) ==
             /\ Len(o.blocks) = Len(P.blocks)
             /\ \A k \in 1..Len(P.blocks) : BlockMatches(o.blocks[k], P.blocks[k], P.lines)
       [] r = "C08.NoOp" -> live /\ c.kind = "view" /\ o.ok /\ o.records # <<>> => o.noop_ran /\ o.noop = c.text
+      (* the same through the application context and a real file (read, change nothing, write back), *)
+      (* with one and with several CPUs: the bytes on disk and the serialised result are the text      *)
+      [] r = "C08.NoOpFile" -> live /\ c.kind = "view" /\ o.ok /\ o.records # <<>> =>
+            o.noop_file_ran /\ Len(o.noop_files) = 4 /\ \A i \in 1..Len(o.noop_files) : o.noop_files[i] = c.text
+      [] r = "C10.ParEqual" -> live /\ c.kind = "view" => \A i \in 1..Len(o.par) : o.par[i].equal
       [] r = "C09.Accepted" -> live /\ c.kind = "view" /\ o.ok /\ o.records # <<>> /\ ~LoneCR(P.lines) =>
             o.print_code = 0 /\ o.reparsed.ok
       [] r = "C09.SameRecords" -> live /\ c.kind = "view" /\ o.ok /\ o.records # <<>> /\ ~LoneCR(P.lines) /\ o.reparsed.ok =>
@@ -152,6 +170,28 @@ Holds(r, ev, P) ==
       [] r = "C10.Term" -> live /\ c.kind = "view" /\ ~o.ok /\ (\A i \in 1..Len(o.errors) : o.errors[i].text_panic = "") =>
             o.print_code # 0 /\ TermOK(o)
       [] r = "C10.Json" -> live /\ c.kind = "view" /\ ~o.ok => o.json_code = 0 /\ JsonErrOK(o)
+      [] r = "C10.Multi" -> live /\ c.kind = "view" /\ ~o.ok /\ (\A i \in 1..Len(o.errors) : o.errors[i].text_panic = "") =>
+            /\ o.multi_code # 0 /\ TermOKOn(o.multi_err, TwoFiles(o))
+            /\ o.json_multi_wellformed /\ o.json_multi_records_null /\ JsonErrsOn(o.json_multi.errors, TwoFiles(o))
+      (* the text is the same whichever way it reaches klog: as a file, on standard input, or as one of    *)
+      (* several files (whose records and errors come in the order of the arguments).  An empty standard  *)
+      (* input means "no input" and is not judged.                                                        *)
+      [] r = "C01.Channels" -> live /\ HasChannels(o) /\ c.text # "" =>
+            /\ (o.file_print_code = 0) = o.ok /\ (o.stdin_print_code = 0) = o.ok
+            /\ o.ok => o.stdin_json = o.file_json
+      [] r = "C09.Channels" -> live /\ HasChannels(o) /\ c.text # "" /\ o.ok =>
+            /\ o.stdin_print = o.file_print
+            /\ o.two_print_code = 0
+            /\ o.records # <<>> => /\ o.two_print = Take(o.file_print, Len(o.file_print) - 1) \o o.other_print
+                                   /\ o.two_print_rev = Take(o.other_print, Len(o.other_print) - 1) \o o.file_print
+      [] r = "C10.Stdin" -> live /\ HasChannels(o) /\ ~o.ok /\ c.text # "" /\ (\A i \in 1..Len(o.errors) : o.errors[i].text_panic = "") =>
+            /\ o.stdin_print_code # 0
+            /\ TermOKOn(o.stdin_print_err, [i \in 1..Len(o.errors) |-> [e |-> o.errors[i], f |-> ""]])
+      (* the JSON document for a text arriving on standard input: the same errors (without a file name) *)
+      [] r = "C20.Stdin" -> live /\ c.kind = "view" /\ HasChannels(o) /\ c.text # "" =>
+            IF o.ok THEN o.stdin_json = o.file_json
+            ELSE /\ o.json_stdin_wellformed /\ o.json_stdin_records_null
+                 /\ JsonErrsOn(o.json_stdin.errors, [i \in 1..Len(o.errors) |-> [e |-> o.errors[i], f |-> ""]])
       [] r = "C10.NoPanic" -> ev.panic = "" /\ \A i \in 1..Len(o.errors) : o.errors[i].text_panic = ""
       [] r = "C10.ErrShape" -> live /\ ~o.ok =>
             \A i \in 1..Len(o.errors) :
